@@ -770,6 +770,12 @@ Hnextread(int32 access_id, uint16 tag, uint16 ref, int origin)
             HGOTO_DONE(SUCCEED);
         } /* end if */
         else {
+            /* the special element cannot be accessed (for instance its coder is not available):
+               leave an ordinary, attached record behind, so that Hendaccess can still release it
+               instead of calling into special-element state that was never set up */
+            access_rec->special      = 0;
+            access_rec->special_func = NULL;
+            file_rec->attach++;
             HGOTO_DONE(FAIL);
         } /* end if */
     }
